@@ -83,7 +83,7 @@ type interp struct {
 	inInterferer    bool
 	interferePoints int
 	inInit          int
-	fixedClock      *int64
+	fixedClock      value // int64 or *Sym; nil = symbolic readings
 	allowInit       *ssa.Package
 
 	// misc model state
